@@ -240,12 +240,12 @@ def run_cases(rng, cases):
     jobs, recs = [], []
     for case in cases:
         kind, tree, lay = case[:3]
-        toks = X.print_min(tree)
+        toks = X.print_min(tree) if tree is not None else case[4]
         text = X.render(toks, rng)
         src = program(lay, text)
         jobs.append((([("t.mac", src)],), {}))
         recs.append({"kind": kind, "tree": tree, "lay": lay, "tokens": toks, "text": text, "src": src,
-                     "depth": case[3] if len(case) > 3 else X.depth_of(tree)})
+                     "depth": case[3] if len(case) > 3 else (X.depth_of(tree) if tree is not None else 0)})
     outs = impl.pmap("assemble", jobs, chunksize=64)
     for r, o in zip(recs, outs):
         r["obs"] = observe(r["lay"], o)
@@ -257,7 +257,10 @@ def judge(recs, module, judge_fn):
     terms = []
     for r in recs:
         syms, dot = layout_syms(r["lay"])
-        terms.append(X.coq_case(r["tree"], r["tokens"], syms, dot, r["obs"]))
+        if r["tree"] is None:
+            terms.append(X.coq_tcase(r["tokens"], syms, dot, r["obs"]))
+        else:
+            terms.append(X.coq_case(r["tree"], r["tokens"], syms, dot, r["obs"]))
     shards = C.shard(terms, 400)
     codes = C.run_case_files(ID, "Spec.ExprTokens Spec.Arith Run.C05Spec" + ("" if module == "Run.C05Spec" else " " + module), "Open Scope string_scope.", shards, judge_expr=f"map {judge_fn} cases")
     return [c for sh in codes for c in sh]
@@ -283,12 +286,52 @@ def report_violation(rep, r, enc, how):
                 replay={"tree": r["tree"], "layout": r["lay"]})
 
 
+OUTSIDE = [
+    "2 * - cb0", "( 1 ) +", "1 ( 2 )", "@ 1", "% 1", "( 1 + 2", "1 +", "^x", "^q 1", "- - 1", "+ - ~ ^c 5",
+    "( 1 ) ( 2 ) ( 3 )", "1 -", "( 1 - )", "1 + + 2", "< 1 + 2 )", "- 8", "1 * ( - 8 )", "0x0x1", "0x1f.",
+    "^Rabcd", "7 :", "( 7 : )", "^: 7 :", "cb0 ( cb1 )", "< cb0 > ( 3 ) * 2", "1 + ( 2", "( )", 
+    "~ ( 1 ) +", "- cb0 +", "1 + 2 -", "1 << ^o18", "^b2", "^d12a", "0b102 + 1", "0o8", "0xg", "12a", "lb0 :",
+    "- 1$", "^c - 1", "- ^xF", "% % 1", "@ ( 1 + 2 )", "1 + @ 2", "3 _ - 1 _ 2", "1 ! 2 ! ( 4", 
+]
+
+
+def outside_cases(lay):
+    out = []
+    for text in OUTSIDE:
+        toks = []
+        for w in text.split():
+            lw = w.lower()
+            if lw[0].isdigit() or (len(lw) >= 2 and lw[0] == "^" and lw[1] in "xobd"):
+                toks.append(("num", w))
+            elif lw.startswith("^r") and len(lw) > 2:
+                toks.append(("r50", w[2:]))
+            elif lw[0].isalpha():
+                toks.append(("sym", w))
+            elif w == ".":
+                toks.append(("dot",))
+            else:
+                toks.append(("p", lw))
+        out.append(("outside", None, lay, 0, toks))
+    return out
+
+
 def explore(rep, br, tier, seed):
     rng = random.Random(seed)
     enc = bk_enc()
-    n_random = 2500 if tier == "quick" else 60000
+    n_random = 2000 if tier == "quick" else 60000
     cases = build_cases(rng, tier, enc, n_random)
     recs = run_cases(rng, cases)
+    fixed_lay = {"base": 0o1000, "link": None, "pad": 2, "consts": {"cb0": 0o21, "cb1": -5, "ca0": 0o377, "ca1": 1 << 31}}
+    orecs = run_cases(rng, outside_cases(fixed_lay))
+    ocodes = judge(orecs, "Run.C05Run", "judge_tokens")
+    for r, code in zip(orecs, ocodes):
+        rep.add_eval()
+        rep.count("kind:outside")
+        rep.count("outside:" + r["obs"][0])
+        rep.nontrivial("outside:" + r["text"])
+        if code & 1:
+            rep.disagree("Model.ExprParse on a token list outside the documented language vs the real assembler",
+                         {"expression": r["text"]}, impl=r["raw"])
     for r in recs:
         rep.add_eval()
         rep.count("kind:" + r["kind"])
